@@ -274,3 +274,312 @@ Proof.
   - rewrite HwsA. apply wsame_refl.
   - rewrite <- Hfarms. exact Hbud.
 Qed.
+
+(* ====================================================================================================================
+   Users staking several LP denoms: the claim walks over the denoms; each step is framed against the others.
+   ==================================================================================================================== *)
+Lemma latest_filter p a lp : forall l acc,
+  (forall kv, p kv = false -> wkey_pref a lp (fst kv) = false) ->
+  fold_left (lstep a lp) (filter p l) acc = fold_left (lstep a lp) l acc.
+Proof.
+  induction l as [|kv r IH]; intros acc H; cbn [filter fold_left]; [reflexivity|].
+  destruct (p kv) eqn:E; cbn [fold_left]; [apply IH; exact H|].
+  rewrite IH by exact H. replace (lstep a lp acc kv) with acc; [reflexivity|]. unfold lstep. rewrite (H kv E). reflexivity.
+Qed.
+
+Lemma latest_set_other k0 v a lp : wkey_pref a lp k0 = false -> forall l acc,
+  fold_left (lstep a lp) (w_set l k0 v) acc = fold_left (lstep a lp) l acc.
+Proof.
+  intros Hp. induction l as [|[k' v'] r IH]; intros acc; cbn [w_set fold_left].
+  - unfold lstep. cbn [fst]. rewrite Hp. reflexivity.
+  - destruct (wkey_eqb k0 k') eqn:E; cbn [fold_left].
+    + replace (lstep a lp acc (k', v)) with acc by (unfold lstep; cbn [fst]; rewrite (wkey_eqb_pref _ _ a lp E), Hp; reflexivity).
+      replace (lstep a lp acc (k', v')) with acc by (unfold lstep; cbn [fst]; rewrite (wkey_eqb_pref _ _ a lp E), Hp; reflexivity). reflexivity.
+    + apply IH.
+Qed.
+
+Lemma sync_latest_other s a lp u s2 lp' b :
+  sync_weight_history s a lp u true = Ok s2 -> lp <> lp' -> w_latest (fm_weights s2) b lp' = w_latest (fm_weights s) b lp'.
+Proof.
+  unfold sync_weight_history. intros H Hne.
+  destruct (w_earliest (fm_weights s) a lp) as [[e0 x0]|]; [|discriminate].
+  destruct (w_latest (fm_weights s) a lp) as [[e1 w1]|]; [|discriminate].
+  inversion H; subst s2; clear H. cbn [fm_weights fm_set_weights fm_with].
+  assert (Hl : String.eqb lp lp' = false) by (apply String.eqb_neq; exact Hne).
+  rewrite !w_latest_fold. rewrite latest_set_other.
+  - apply latest_filter. intros kv Hk. apply negb_false_iff in Hk. apply andb_true_iff in Hk. destruct Hk as [Hk _].
+    apply andb_true_iff in Hk. destruct Hk as [Hk _]. unfold wkey_pref in *. apply andb_true_iff in Hk. destruct Hk as [_ L].
+    apply String.eqb_eq in L. rewrite L, Hl. apply andb_false_r.
+  - unfold wkey_pref, mkw. cbn [wk_addr wk_lp]. rewrite Hl. apply andb_false_r.
+Qed.
+
+(* after the synchronisation the address's earliest entry for the denom is the one just written *)
+Lemma earliest_no_pref a lp : forall l acc, (forall kv, In kv l -> wkey_pref a lp (fst kv) = false) -> fold_left (estep a lp) l acc = acc.
+Proof.
+  induction l as [|kv r IH]; intros acc H; cbn [fold_left]; [reflexivity|].
+  rewrite IH by (intros x Hx; apply H; right; exact Hx). unfold estep. rewrite (H kv (or_introl eq_refl)). reflexivity.
+Qed.
+
+Lemma w_set_append k v : forall l, (forall kv, In kv l -> wkey_eqb k (fst kv) = false) -> w_set l k v = (l ++ [(k, v)])%list.
+Proof.
+  induction l as [|[k' v'] r IH]; intros H; cbn [w_set app]; [reflexivity|].
+  pose proof (H (k', v') (or_introl eq_refl)) as H0. cbn [fst] in H0. rewrite H0. f_equal. apply IH. intros kv Hin. apply H. right. exact Hin.
+Qed.
+
+Lemma removed_no_pref ws a lp e0 x0 e1 w1 :
+  w_earliest ws a lp = Some (e0, x0) -> w_latest ws a lp = Some (e1, w1) ->
+  forall kv, In kv (w_remove_range ws a lp e0 e1) -> wkey_pref a lp (fst kv) = false.
+Proof.
+  intros He Hl kv Hin. unfold w_remove_range in Hin. apply filter_In in Hin. destruct Hin as [Hin Hp].
+  destruct (wkey_pref a lp (fst kv)) eqn:E; [|reflexivity]. exfalso.
+  rewrite w_earliest_fold in He. rewrite w_latest_fold in Hl.
+  destruct (earliest_bound _ _ _ _ _ _ He) as [A _]. destruct (latest_bound _ _ _ _ _ _ Hl) as [B _].
+  specialize (A kv Hin E). specialize (B kv Hin E).
+  replace (e0 <=? wk_epoch (fst kv)) with true in Hp by lia. replace (wk_epoch (fst kv) <=? e1) with true in Hp by lia. discriminate.
+Qed.
+
+Lemma synced_earliest_self ws a lp e0 x0 e1 w1 u :
+  w_earliest ws a lp = Some (e0, x0) -> w_latest ws a lp = Some (e1, w1) ->
+  w_earliest (synced ws a lp e0 e1 u w1) a lp = Some (u, w1).
+Proof.
+  intros He Hl. pose proof (removed_no_pref _ _ _ _ _ _ _ He Hl) as Hno. unfold synced.
+  rewrite w_set_append.
+  - rewrite w_earliest_fold, fold_left_app, (earliest_no_pref a lp _ None Hno). cbn [fold_left]. unfold estep. cbn [fst snd].
+    unfold wkey_pref, mkw. cbn [wk_addr wk_lp wk_epoch]. rewrite !String.eqb_refl. reflexivity.
+  - intros kv Hin. destruct (wkey_eqb (mkw a lp u) (fst kv)) eqn:E; [|reflexivity].
+    destruct (key_match_inv _ _ _ _ E) as [Hp _]. rewrite (Hno kv Hin) in Hp. discriminate.
+Qed.
+
+Lemma synced_wsame ws ws' a lp e0 x0 e1 w1 u :
+  wsame lp ws ws' ->
+  w_earliest ws a lp = Some (e0, x0) -> w_latest ws a lp = Some (e1, w1) -> w_latest ws' a lp = Some (e1, w1) ->
+  wsame lp (synced ws a lp e0 e1 u w1) (synced ws' a lp e0 e1 u w1).
+Proof.
+  intros [G E] He Hl Hl'. assert (He' : w_earliest ws' a lp = Some (e0, x0)) by (rewrite E; exact He).
+  split.
+  - intros b e. destruct (String.eqb b a) eqn:Eb.
+    + apply String.eqb_eq in Eb. subst b. rewrite (synced_get _ _ _ _ _ _ _ u e He Hl), (synced_get _ _ _ _ _ _ _ u e He' Hl'). reflexivity.
+    + destruct (synced_other ws a lp e0 e1 u w1 b Eb) as [A _]. destruct (synced_other ws' a lp e0 e1 u w1 b Eb) as [A' _].
+      rewrite A, A'. apply G.
+  - intros b. destruct (String.eqb b a) eqn:Eb.
+    + apply String.eqb_eq in Eb. subst b. rewrite (synced_earliest_self _ _ _ _ _ _ _ u He Hl), (synced_earliest_self _ _ _ _ _ _ _ u He' Hl'). reflexivity.
+    + destruct (synced_other ws a lp e0 e1 u w1 b Eb) as [_ A]. destruct (synced_other ws' a lp e0 e1 u w1 b Eb) as [_ A'].
+      rewrite A, A'. apply E.
+Qed.
+
+Definition modl (s0 : fm_state) (sender : string) (u c : Z) (lp : string) : list (string * Z) :=
+  flat_map (mod_of s0 lp sender u (Some c)) (farms_by_lp s0 lp (fm_max_farms (fm_cfg s0))).
+
+Definition todo_ok (s0 s : fm_state) (lp : string) : Prop :=
+  lp_farms lp (fm_farms s) = lp_farms lp (fm_farms s0) /\ wsame lp (fm_weights s0) (fm_weights s) /\
+  forall b, w_latest (fm_weights s) b lp = w_latest (fm_weights s0) b lp.
+
+Definition done_ok (s0 s : fm_state) (sender : string) (u c : Z) (lp : string) : Prop :=
+  lp_farms lp (fm_farms s) = map (upd_by (modl s0 sender u c lp)) (lp_farms lp (fm_farms s0)) /\
+  exists e0 x0 e1 w1,
+    w_earliest (fm_weights s0) sender lp = Some (e0, x0) /\ w_latest (fm_weights s0) sender lp = Some (e1, w1) /\
+    wsame lp (synced (fm_weights s0) sender lp e0 e1 u w1) (fm_weights s).
+
+Lemma upd_by_id m g : f_id (upd_by m g) = f_id g.
+Proof. unfold upd_by. destruct (assoc (f_id g) m); reflexivity. Qed.
+
+Lemma map_ids_upd m l : map f_id (map (upd_by m) l) = map f_id l.
+Proof. rewrite map_map. apply map_ext. intros g. apply upd_by_id. Qed.
+
+Lemma claim_loop_post s0 sender u c :
+  lc_get (fm_last_claimed s0) sender = Some c -> u <> c ->
+  forall lps done s acc s1 total,
+  NoDup lps -> (forall lp, In lp lps -> ~ In lp done) ->
+  NoDup (map f_id (fm_farms s)) -> fm_cfg s = fm_cfg s0 -> fm_last_claimed s = fm_last_claimed s0 -> fm_positions s = fm_positions s0 ->
+  (forall lp, In lp lps -> todo_ok s0 s lp) -> (forall lp, In lp done -> done_ok s0 s sender u c lp) ->
+  (forall f, In f (fm_farms s) -> f_claimed f <= amount_of (f_asset f)) ->
+  foldM (claim_step sender u) lps (s, acc) = Ok (s1, total) ->
+  fm_cfg s1 = fm_cfg s0 /\ fm_last_claimed s1 = fm_last_claimed s0 /\ fm_positions s1 = fm_positions s0 /\
+  NoDup (map f_id (fm_farms s1)) /\ (forall lp, In lp (done ++ lps) -> done_ok s0 s1 sender u c lp) /\
+  (forall f, In f (fm_farms s1) -> f_claimed f <= amount_of (f_asset f)).
+Proof.
+  intros Hlc Hne. induction lps as [|lp rest IH]; intros done s acc s1 total Hnd Hdis Hids Hc Hl Hp Htodo Hdone Hbd H; cbn [foldM] in H.
+  - inversion H; subst. rewrite app_nil_r. split; [exact Hc|]. split; [exact Hl|]. split; [exact Hp|]. split; [exact Hids|]. split; [exact Hdone | exact Hbd].
+  - apply bind_ok in H. destruct H as [[s2 acc2] [Hstep H]].
+    unfold claim_step in Hstep. cbn [fst snd] in Hstep.
+    apply bind_ok in Hstep. destruct Hstep as [[rewards modified] [Hcr Hstep]].
+    apply bind_ok in Hstep. destruct Hstep as [farms' [Hupd Hstep]].
+    apply bind_ok in Hstep. destruct Hstep as [s2' [Hsync Hstep]]. inversion Hstep; subst s2' acc2; clear Hstep.
+    inversion Hnd as [|x xs Hnotin Hnd']; subst.
+    destruct (Htodo lp (or_introl eq_refl)) as (Hfa & Hw & Hlat).
+    (* the rewards and the per-farm totals are those of the state before the claim *)
+    assert (Hcr0 : calculate_rewards s0 lp sender u = Ok (rewards, modified)).
+    { rewrite <- (calculate_rewards_same s0 s lp sender u Hc Hl Hfa Hw). exact Hcr. }
+    pose proof (calculate_rewards_modified _ _ _ _ _ _ _ Hcr0 Hlc Hne) as Hm. fold (modl s0 sender u c lp) in Hm.
+    assert (Hall : Forall (has_lp_farm lp (fm_farms s)) modified) by (eapply calculate_rewards_modified_ids; exact Hcr).
+    destruct (claim_upd_fold lp modified (fm_farms s) farms' Hids Hall Hupd) as (Hother & Hids' & _).
+    assert (Hndm : NoDup (map fst modified)).
+    { rewrite Hm. unfold modl. apply flat_map_ids_nodup. unfold farms_by_lp. fold (lp_farms lp (fm_farms s0)). rewrite <- Hfa.
+      apply NoDup_map_take. apply NoDup_map_filter. exact Hids. }
+    pose proof (claim_upd_map _ _ _ Hids Hndm Hupd) as Hfarms'.
+    destruct (sync_fields _ _ _ _ _ Hsync) as (Hf2 & Hc2 & Hl2 & Hp2).
+    cbn [fm_farms fm_cfg fm_last_claimed fm_positions fm_set_farms fm_with] in Hf2, Hc2, Hl2, Hp2.
+    (* the synchronised table *)
+    pose proof Hsync as Hsy. unfold sync_weight_history in Hsy. cbn [fm_set_farms fm_with fm_weights] in Hsy.
+    destruct (w_earliest (fm_weights s) sender lp) as [[e0 x0]|] eqn:Ee; [|discriminate].
+    destruct (w_latest (fm_weights s) sender lp) as [[e1 w1]|] eqn:El; [|discriminate].
+    inversion Hsy as [Hs2]. clear Hsy.
+    assert (Hw2 : fm_weights s2 = synced (fm_weights s) sender lp e0 e1 u w1) by (rewrite <- Hs2; reflexivity).
+    destruct Hw as [G E]. pose proof Ee as Ee0. rewrite E in Ee0. pose proof El as El0. rewrite Hlat in El0.
+    apply (IH (done ++ [lp])%list s2 (acc ++ rewards)%list s1 total Hnd') in H.
+    + destruct H as (A & B & C & D & F & K). split; [exact A|]. split; [exact B|]. split; [exact C|]. split; [exact D|]. split; [|exact K].
+      intros lp' Hin. apply F. rewrite <- app_assoc. exact Hin.
+    + intros lp' Hin Hd. apply in_app_iff in Hd. destruct Hd as [Hd|[<-|[]]]; [apply (Hdis lp' (or_intror Hin)); exact Hd | contradiction].
+    + rewrite Hf2, Hfarms', map_ids_upd. exact Hids.
+    + rewrite Hc2. exact Hc.
+    + rewrite Hl2. exact Hl.
+    + rewrite Hp2. exact Hp.
+    + intros lp' Hin'. assert (Hne' : lp <> lp') by (intros C; subst; contradiction).
+      destruct (Htodo lp' (or_intror Hin')) as (Hfa' & Hw' & Hlat').
+      split; [rewrite Hf2, (Hother lp' Hne'); exact Hfa'|]. split.
+      * eapply wsame_trans; [exact Hw'|]. exact (sync_wsame _ _ _ _ _ lp' Hsync Hne').
+      * intros b. rewrite (sync_latest_other _ _ _ _ _ lp' b Hsync Hne'). cbn [fm_set_farms fm_with fm_weights]. apply Hlat'.
+    + intros lp' Hin'. apply in_app_iff in Hin'. destruct Hin' as [Hin'|[<-|[]]].
+      * assert (Hne' : lp <> lp') by (intros C; subst; apply (Hdis lp' (or_introl eq_refl)); exact Hin').
+        destruct (Hdone lp' Hin') as (Hfd & e0' & x0' & e1' & w1' & He' & Hl' & Hwd).
+        split; [rewrite Hf2, (Hother lp' Hne'); exact Hfd|].
+        exists e0', x0', e1', w1'. split; [exact He'|]. split; [exact Hl'|].
+        eapply wsame_trans; [exact Hwd|]. exact (sync_wsame _ _ _ _ _ lp' Hsync Hne').
+      * split.
+        { rewrite Hf2, Hfarms'. unfold lp_farms. rewrite filter_map_lp. fold (lp_farms lp (fm_farms s)). rewrite Hfa, Hm. reflexivity. }
+        exists e0, x0, e1, w1. split; [exact Ee0|]. split; [exact El0|].
+        rewrite Hw2. apply (synced_wsame _ _ _ _ _ x0 _ _ _ (conj G E) Ee0 El0 El).
+    + rewrite Hf2. apply (claim_upd_bounded _ _ _ Hupd Hbd).
+Qed.
+
+Definition aggr (s : fm_state) (lp sender : string) (u : Z) : list coin :=
+  match calculate_rewards s lp sender u with Ok (r, _) => r | Err _ => [] end.
+
+Lemma query_fold_sum s sender u : forall lps acc total,
+  foldM (query_step s sender u) lps acc = Ok total ->
+  (forall d, camt total d = camt acc d + ssum (fun lp => camt (aggr s lp sender u) d) lps) /\
+  (forall lp, In lp lps -> exists r m, calculate_rewards s lp sender u = Ok (r, m)).
+Proof.
+  induction lps as [|lp rest IH]; intros acc total H; cbn [foldM] in H.
+  - inversion H; subst. split; [intros d; cbn; lia | intros lp []].
+  - apply bind_ok in H. destruct H as [acc1 [Hq H]]. unfold query_step in Hq.
+    apply bind_ok in Hq. destruct Hq as [[r m] [Hcr Hq]]. inversion Hq; subst acc1; clear Hq.
+    destruct (IH _ _ H) as [A B]. split.
+    + intros d. rewrite A, camt_app. cbn [ssum]. unfold aggr at 2. rewrite Hcr. lia.
+    + intros lp' [<-|Hin]; [exists r, m; exact Hcr | apply B; exact Hin].
+Qed.
+
+(* a claim, decomposed: the walk over the LP denoms, the cursor, the payout *)
+Lemma claim_full w sender until s' msgs :
+  claim w sender [] until = Ok (s', msgs) ->
+  exists ep u s1 total,
+    q_current_epoch w (fm_epoch_manager (fm_cfg (w_fm w))) = Ok ep /\
+    until_epoch_or_current until (ep_id ep) = Ok u /\
+    foldM (claim_step sender u) (unique_lp_denoms (positions_by_receiver (w_fm w) sender true)) (w_fm w, []) = Ok (s1, total) /\
+    s' = fm_set_last_claimed s1 (lc_set (fm_last_claimed s1) sender u) /\
+    forall d, out_amt msgs d = camt total d.
+Proof.
+  unfold claim. cbn [nonpayable bind]. intros H.
+  apply bind_ok in H. destruct H as [[] [_ H]].
+  apply bind_ok in H. destruct H as [ep [Hep H]].
+  apply bind_ok in H. destruct H as [u [Hu H]].
+  apply bind_ok in H. destruct H as [[s1 total] [Hf H]].
+  apply bind_ok in H. destruct H as [ms [Hms H]]. inversion H; subst s' msgs; clear H.
+  exists ep, u, s1, total. split; [exact Hep|]. split; [exact Hu|]. split; [exact Hf|]. split; [reflexivity|].
+  intros d. destruct total as [|c0 r0]; [inversion Hms; reflexivity|].
+  apply bind_ok in Hms. destruct Hms as [agg [Hagg Hms]]. inversion Hms; subst ms.
+  cbn [out_amt]. unfold sent_amt, plain. cbn [sm_msg]. rewrite (aggregate_camt _ _ d Hagg). lia.
+Qed.
+
+Lemma todo_refl s lp : todo_ok s s lp.
+Proof. split; [reflexivity|]. split; [apply wsame_refl | reflexivity]. Qed.
+
+(* ---------- the theorem for any number of LP denoms ---------- *)
+Theorem claim_twice wA wB wC sender c u1 u2 sA sB sC msgs1 msgs2 msgsC :
+  w_fm wC = w_fm wA -> w_fm wB = sA ->
+  lc_get (fm_last_claimed (w_fm wA)) sender = Some c -> c < u1 < u2 -> u1 < U64_MAX ->
+  claim wA sender [] (Some u1) = Ok (sA, msgs1) ->
+  claim wB sender [] (Some u2) = Ok (sB, msgs2) ->
+  claim wC sender [] (Some u2) = Ok (sC, msgsC) ->
+  NoDup (map f_id (fm_farms (w_fm wA))) ->
+  (forall f, In f (fm_farms (w_fm wA)) -> 0 <= f_claimed f <= amount_of (f_asset f) /\ amount_of (f_asset f) <= U128_MAX) ->
+  String.eqb FM sender = false ->
+  (forall lp, In lp (unique_lp_denoms (positions_by_receiver (w_fm wA) sender true)) ->
+     exists e1 w1 e0c w0c,
+       w_latest (fm_weights (w_fm wA)) sender lp = Some (e1, w1) /\ c <= e1 <= u1 + 1 /\
+       w_earliest (fm_weights (w_fm wA)) FM lp = Some (e0c, w0c) /\ e0c <= c + 1) ->
+  forall d, out_amt msgsC d = out_amt msgs1 d + out_amt msgs2 d.
+Proof.
+  intros HsC HsB Hlc Hu Hu1 HA HB HC Hnd Hwf Hfm Hlps d.
+  remember (w_fm wA) as s eqn:Hs.
+  remember (unique_lp_denoms (positions_by_receiver s sender true)) as lps eqn:Hlpsdef.
+  assert (Hbd0 : forall f, In f (fm_farms s) -> f_claimed f <= amount_of (f_asset f)) by (intros f Hf; destruct (Hwf f Hf) as [[_ B] _]; exact B).
+  assert (Hndl : NoDup lps) by (rewrite Hlpsdef; apply dedup_NoDup).
+  (* the first claim *)
+  destruct (claim_full _ _ _ _ _ HA) as (epA & uA & s1A & totA & _ & HuA & HfA & HsA & Hout1).
+  cbn [until_epoch_or_current] in HuA. apply bind_ok in HuA. destruct HuA as [[] [_ HuA]]. inversion HuA; subst uA; clear HuA.
+  rewrite <- Hs, <- Hlpsdef in HfA.
+  assert (HqA : foldM (query_step s sender u1) lps [] = Ok totA).
+  { eapply claim_walk; [exact Hndl | exact Hnd | | exact HfA].
+    split; [reflexivity|]. split; [reflexivity|]. intros lp' _. split; [reflexivity | apply wsame_refl]. }
+  destruct (claim_loop_post s sender u1 c Hlc ltac:(lia) lps [] s [] s1A totA Hndl (fun _ _ C => C) Hnd eq_refl eq_refl eq_refl
+              (fun lp _ => todo_refl s lp) (fun lp C => match C with end) Hbd0 HfA) as (HcA & HlA & HpA & HndA & HdoneA & _).
+  cbn [app] in HdoneA.
+  (* the single claim *)
+  destruct (claim_full _ _ _ _ _ HC) as (epC & uC & s1C & totC & _ & HuC & HfC & _ & HoutC).
+  cbn [until_epoch_or_current] in HuC. apply bind_ok in HuC. destruct HuC as [[] [_ HuC]]. inversion HuC; subst uC; clear HuC.
+  rewrite HsC, <- Hlpsdef in HfC.
+  assert (HqC : foldM (query_step s sender u2) lps [] = Ok totC).
+  { eapply claim_walk; [exact Hndl | exact Hnd | | exact HfC].
+    split; [reflexivity|]. split; [reflexivity|]. intros lp' _. split; [reflexivity | apply wsame_refl]. }
+  destruct (claim_loop_post s sender u2 c Hlc ltac:(lia) lps [] s [] s1C totC Hndl (fun _ _ C => C) Hnd eq_refl eq_refl eq_refl
+              (fun lp _ => todo_refl s lp) (fun lp C => match C with end) Hbd0 HfC) as (_ & _ & _ & _ & HdoneC & HbdC).
+  cbn [app] in HdoneC.
+  (* the second claim, on the state the first one left *)
+  destruct (claim_full _ _ _ _ _ HB) as (epB & uB & s1B & totB & _ & HuB & HfB & _ & Hout2).
+  cbn [until_epoch_or_current] in HuB. apply bind_ok in HuB. destruct HuB as [[] [_ HuB]]. inversion HuB; subst uB; clear HuB.
+  rewrite HsB in HfB.
+  assert (HposA : fm_positions sA = fm_positions s) by (rewrite HsA; cbn [fm_set_last_claimed fm_with fm_positions]; exact HpA).
+  assert (HfarmsA : fm_farms sA = fm_farms s1A) by (rewrite HsA; reflexivity).
+  assert (HwA : fm_weights sA = fm_weights s1A) by (rewrite HsA; reflexivity).
+  assert (HcfgA : fm_cfg sA = fm_cfg s) by (rewrite HsA; cbn [fm_set_last_claimed fm_with fm_cfg]; exact HcA).
+  assert (HlcA : lc_get (fm_last_claimed sA) sender = Some u1) by (rewrite HsA; cbn [fm_set_last_claimed fm_with fm_last_claimed]; apply lc_get_set).
+  assert (HlpsB : unique_lp_denoms (positions_by_receiver sA sender true) = lps).
+  { unfold positions_by_receiver. rewrite HposA. rewrite Hlpsdef. reflexivity. }
+  rewrite HlpsB in HfB.
+  assert (HqB : foldM (query_step sA sender u2) lps [] = Ok totB).
+  { eapply claim_walk; [exact Hndl | rewrite HfarmsA; exact HndA | | exact HfB].
+    split; [reflexivity|]. split; [reflexivity|]. intros lp' _. split; [reflexivity | apply wsame_refl]. }
+  destruct (query_fold_sum _ _ _ _ _ _ HqA) as [SA OkA]. destruct (query_fold_sum _ _ _ _ _ _ HqB) as [SB OkB].
+  destruct (query_fold_sum _ _ _ _ _ _ HqC) as [SC OkC].
+  rewrite HoutC, Hout1, Hout2, SA, SB, SC. cbn [camt]. rewrite !Z.add_0_l. rewrite <- ssum_plus.
+  apply ssum_ext_in. intros lp Hlp.
+  destruct (OkA lp Hlp) as (r1 & m1 & Hcr1). destruct (OkB lp Hlp) as (r2 & m2 & Hcr2). destruct (OkC lp Hlp) as (rC & mC & HcrC).
+  unfold aggr. rewrite Hcr1, Hcr2, HcrC.
+  destruct (Hlps lp Hlp) as (e1 & w1 & e0c & w0c & Hl & Hle & Hec & Hec0).
+  destruct (HdoneA lp Hlp) as (HfaA & e0 & x0 & e1' & w1' & He & Hl' & HwsA).
+  rewrite Hl in Hl'. inversion Hl'; subst e1' w1'; clear Hl'.
+  destruct (HdoneC lp Hlp) as (HfaC & _).
+  remember (farms_by_lp s lp (fm_max_farms (fm_cfg s))) as farms eqn:Hfarms.
+  destruct (farms_by_lp_sub s lp (fm_max_farms (fm_cfg s))) as [Hsub Hsubnd]. rewrite <- Hfarms in Hsub, Hsubnd.
+  pose proof (Hsubnd Hnd) as Hfnd.
+  assert (HfarmsA' : farms_by_lp sA lp (fm_max_farms (fm_cfg s))
+                     = map (fun f => with_claimed f (f_claimed f + sum_snd (rw s lp sender u1 (Some c) f))) farms).
+  { unfold farms_by_lp. fold (lp_farms lp (fm_farms sA)). rewrite HfarmsA, HfaA, take_map.
+    change (take (Z.to_nat (Z.min (fm_max_farms (fm_cfg s)) MAX_FARMS_LIMIT)) (lp_farms lp (fm_farms s))) with (farms_by_lp s lp (fm_max_farms (fm_cfg s))).
+    rewrite <- Hfarms.
+    apply map_ext_in. intros g Hg. unfold upd_by, modl. rewrite <- Hfarms, (assoc_flat_map _ _ _ _ _ g farms Hfnd Hg).
+    destruct (rw s lp sender u1 (Some c) g); [cbn [sum_snd]; symmetry; apply with_claimed_same | reflexivity]. }
+  assert (Hbud : forall f, In f farms -> 0 <= f_claimed f /\ f_claimed f + sum_snd (rw s lp sender u2 (Some c) f) <= amount_of (f_asset f) <= U128_MAX).
+  { intros f Hf. destruct (Hwf f (Hsub f Hf)) as [[A B] C]. split; [exact A|]. split; [|exact C].
+    assert (Hin1 : In (upd_by (modl s sender u2 c lp) f) (fm_farms s1C)).
+    { assert (Hin2 : In (upd_by (modl s sender u2 c lp) f) (lp_farms lp (fm_farms s1C))).
+      { rewrite HfaC. apply in_map. rewrite Hfarms in Hf. unfold farms_by_lp in Hf. apply in_take in Hf. exact Hf. }
+      unfold lp_farms in Hin2. apply filter_In in Hin2. tauto. }
+    specialize (HbdC _ Hin1). unfold upd_by, modl in HbdC. rewrite <- Hfarms, (assoc_flat_map _ _ _ _ _ f farms Hfnd Hf) in HbdC.
+    destruct (rw s lp sender u2 (Some c) f) as [|e0' t0]; [cbn [sum_snd]; lia | exact HbdC]. }
+  eapply (calculate_rewards_split s sA lp sender c u1 u2 rC mC r1 m1 r2 m2 e0 x0 e1 w1 e0c w0c); try eassumption.
+  - rewrite <- Hfarms. exact HfarmsA'.
+  - rewrite HwA. exact HwsA.
+  - rewrite <- Hfarms. exact Hbud.
+Qed.
